@@ -428,9 +428,13 @@ func zzC12SchemaForms() {
 	if noteType != nil {
 		note["type"] = noteType
 	}
+	var sibling any = note
+	if vBool("siblingIsABooleanSchema") {
+		sibling = true // the boolean form of a subschema: what inference emits for an `any` field (defect D29)
+	}
 	schema := map[string]any{"type": "object", "properties": map[string]any{
 		"region": map[string]any{"type": "string", "x-mcp-header": "Region"},
-		"note":   note,
+		"note":   sibling,
 	}}
 	got := extractParamHeaderAnnotations(&Tool{Name: "t", InputSchema: schema})
 	vAssert(len(got) == 1, "C12.schema-forms.annotated-property-keeps-its-binding")
